@@ -404,3 +404,106 @@ def ob_replay_is_pure(nw: int, b0: bool, b1: bool, b2: bool, q: int, bb: bool, b
     finally:
         cl_mod.time = saved
     return _full(st) == before
+
+
+# ----------------------------------------------------------------------------------------------- whole run
+
+
+from workflows import Context, Workflow, step  # noqa: E402
+from workflows.events import Event, StartEvent, StopEvent  # noqa: E402
+from vlib.h_idle import install_speedups  # noqa: E402
+
+install_speedups()  # tooling only (logging off, native reflection of workflow classes); every solver decision is taken before the scenario
+
+
+class RJob(Event):
+    i: int
+
+
+class RDone(Event):
+    i: int
+
+
+@obligation(quick=240, thorough=900,
+            partitions_quick=[f"c0 == {a} and c1 == {b}" for a in range(3) for b in range(3)],
+            partitions_thorough=[f"c0 == {a} and c1 == {b} and c2 == {c}" for a in range(3) for b in range(3) for c in range(3)],
+            what="whole run of the real run() loop under a symbolic schedule (fan-out to a 2-worker step that may fail once and be retried, "
+                 "collect join): at EVERY scheduling point the state the handler's context rebuilds from the recorded ticks "
+                 "(ExternalContext._state, what ctx.to_dict()/running_steps() report) equals the live runner's state up to timestamps",
+            bounds={"schedule decisions": "4 (quick) / 6 (thorough), 3 options each", "workers": 2, "failures": "0..1 (attempt-based policy)"})
+def ob_whole_run_replay(nfail: int, c0: int, c1: int, c2: int, c3: int, c4: int, c5: int) -> bool:
+    """
+    pre: 0 <= nfail <= 1 and 0 <= c0 <= 2 and 0 <= c1 <= 2 and 0 <= c2 <= 2 and 0 <= c3 <= 2 and 0 <= c4 <= 2 and 0 <= c5 <= 2
+    pre: THOROUGH_FOLD or (c4 == 0 and c5 == 0)
+    post: _
+    """
+    import asyncio
+
+    from vlib.sched import Env, SymAdapter, SymRuntime, run_loop
+
+    nfail, c0, c1, c2, c3, c4, c5 = conc(nfail, 0, 1), conc(c0, 0, 2), conc(c1, 0, 2), conc(c2, 0, 2), conc(c3, 0, 2), conc(c4, 0, 2), conc(c5, 0, 2)
+    env = Env([c0, c1, c2, c3, c4, c5])
+    book = {"fails": 0, "runner": None, "handler": None, "checks": 0, "bad": None}
+
+    class SpyRunner(cl_mod._ControlLoopRunner):
+        def __init__(self, *a, **k):
+            super().__init__(*a, **k)
+            book["runner"] = self
+
+    def compare(where):
+        r, h = book["runner"], book["handler"]
+        if r is None or h is None or book["bad"] is not None:
+            return
+        live = strip(r.state)
+        # the runner may hold ticks it has not reduced yet: the recorded log only covers what it HAS reduced, and so does r.state
+        rebuilt = strip(h.ctx._face._state)
+        book["checks"] += 1
+        if live != rebuilt:
+            book["bad"] = where
+
+    class CmpAdapter(SymAdapter):
+        async def wait_for_next_task(self, running, pending, timeout=None):
+            compare("scheduling point")
+            return await super().wait_for_next_task(running, pending, timeout)
+
+    class Rt(SymRuntime):
+        def get_internal_adapter(self, workflow):
+            return CmpAdapter(super().get_internal_adapter(workflow), self.env)
+
+    class W(Workflow):
+        @step
+        async def start(self, ctx: Context, ev: StartEvent) -> RJob | None:
+            ctx.send_event(RJob(i=0))
+            return RJob(i=1)
+
+        @step(num_workers=2, retry_policy=retry_policy(wait=wait_fixed(0), stop=stop_after_attempt(3)))
+        async def work(self, ctx: Context, ev: RJob) -> RDone:
+            await env.gate(ev.i)
+            if ev.i == 0 and book["fails"] < nfail:
+                book["fails"] += 1
+                raise ValueError("transient")
+            return RDone(i=ev.i)
+
+        @step
+        async def join(self, ctx: Context, ev: RDone) -> StopEvent | None:
+            got = ctx.collect_events(ev, [RDone, RDone])
+            if got is None:
+                return None
+            return StopEvent(result=sorted(e.i for e in got))
+
+    res: list = []
+
+    async def main():
+        h = W(timeout=None, runtime=Rt(env)).run(run_id="r")
+        book["handler"] = h
+        res.append(await h)
+        compare("after the run")
+
+    saved_runner, saved_time = cl_mod._ControlLoopRunner, cl_mod.time
+    cl_mod._ControlLoopRunner = SpyRunner
+    cl_mod.time = _Clock(7)   # replay's own clock (rebuild_state_from_ticks reads time.time())
+    try:
+        run_loop(main)
+    finally:
+        cl_mod._ControlLoopRunner, cl_mod.time = saved_runner, saved_time
+    return res == [[0, 1]] and book["bad"] is None and book["checks"] >= 3
